@@ -16,7 +16,7 @@ Kind == CASE req.m = "POST" -> (IF req.mount THEN "mount" ELSE "post")
           [] req.m = "GET" -> "get"
           [] OTHER -> "delete"
 Rec(c) == [on |-> Kind, act |-> c.a, k |-> c.k, via |-> c.via, s |-> req.start, n |-> Len(req.body),
-           st |-> rsp'.st, acc |-> IF req.m = "PATCH" THEN Len(sess'.data) - Len(sess.data) ELSE 0]
+           st |-> rsp'.st, acc |-> IF req.m \in {"PATCH", "PUT"} THEN Len(sess'.data) - Len(sess.data) ELSE 0]
 
 GInit == Init /\ hist = <<>>
 GNext == \/ Client /\ UNCHANGED hist
